@@ -32,6 +32,8 @@ BUDGET = {"quick": {"off_runs": 260, "on_runs": 24, "timeout": 420}, "thorough":
 
 MESHES = [
     ("band", {"nx": 6, "ny": 2}),
+    ("rll", {"nx": 6, "ny": 4}),
+    ("rll", {"nx": 5, "ny": 3, "lon0": -170.0}),
     ("band", {"nx": 6, "ny": 3, "lon0": -180.0, "lat0": -45.0, "lat1": 45.0}),
     ("patch", {"nx": 5, "ny": 3, "lon0": 150.0, "lon1": 200.0, "lat0": -20.0, "lat1": 25.0}),
     ("patch", {"nx": 3, "ny": 2, "lon0": 150.0, "lon1": 200.0}),
@@ -81,8 +83,8 @@ def gen_source(rng):
         spec["prov"] = rng.choice(["vertices", "vertices_xyz", "vertices_xyz"])
         spec["dialect"] = {"xyz_scale": rng.choice([1.0, 1.0, 0.5, 2.0, 6371.0])}
     elif r < 0.9:
-        spec["prov"] = "ugrid_mem"
-        spec["dialect"] = {"lon360": rng.random() < 0.5, "start": rng.choice([0, 1])}
+        spec["prov"] = rng.choice(["ugrid_mem", "ugrid_mem", "esmf_mem", "raw_ds"])
+        spec["dialect"] = {"lon360": rng.random() < 0.5, "start": rng.choice([0, 1]), "spec": rng.choice([None, "custom"]), "esmf_float": rng.random() < 0.5}
     else:
         spec["prov"] = "ugrid_file"
         spec["dialect"] = {"lon360": rng.random() < 0.5, "start": rng.choice([0, 1]), "dtype": rng.choice(["int32", "int64"])}
